@@ -1049,6 +1049,10 @@ def run(prog, rep, tier):
              'parameters')
     if check_event_dispatch(prog, rep) < 3:
         raise AnalysisError('EV-emit-snapshot: emit loops / decorator closure not found')
+    rep.rule('ST-sub-registered / ST-overwrite', 'storage classes: sub-containers are registered '
+             'with the parent; Hdf5Storage.save removes an existing key first')
+    if check_storage_siblings(prog, rep) < 3:
+        raise AnalysisError('ST-siblings: subcontainer() / Hdf5Storage.save not recognised')
     return rep.finish(
         level='other',
         explanation='Structural necessary conditions of C20 decided on the current source of '
@@ -1147,4 +1151,66 @@ def check_event_dispatch(prog, rep):
                                       'the decorator form registers the function with `%s`, without '
                                       '%s of the outer call: the listener is later called without '
                                       'these arguments' % (unparse(c), miss), c.lineno)
+    return n
+
+
+# ------------------------------------------------------------------ ST-siblings
+def check_storage_siblings(prog, rep):
+    """ST-siblings: the storage classes implement one interface (a dict on disk).
+    ST-sub-registered: every subcontainer() that CREATES a storage object (a constructor / open call
+    of a Storage class; delegation to another subcontainer() does not count) registers it in
+    `self._subcontainers`, the list Storage._common_close closes.
+    ST-overwrite: save() may be called for an existing key (`cache[k] = v` twice). An HDF5 group
+    cannot create a second link of the same name: Hdf5Storage.save removes `key` first
+    (`del self.h5gr[key]` / `self.delete(key)` on every path before save_to_hdf5)."""
+    from ..cfg import CFG
+    m = prog.module(CACHE)
+    ct = prog.classtable()
+    base = ct.get('Storage')
+    names = {c.name for c in ct.cone(base)}
+    n = 0
+    for ci in ct.cone(base):
+        f = ci.methods.get('subcontainer')
+        if f is None:
+            continue
+        creates = [c for c in ast.walk(f) if isinstance(c, ast.Call) and (
+            unparse(c.func) in names or unparse(c.func) == 'self.__class__' or
+            (isinstance(c.func, ast.Attribute) and c.func.attr == 'open' and
+             unparse(c.func.value) in names))]
+        direct = [c for c in creates if not any(
+            isinstance(a, ast.Call) and isinstance(a.func, ast.Attribute) and
+            a.func.attr == 'subcontainer' for x in c.args for a in ast.walk(x))]
+        if not direct:
+            continue
+        n += 1
+        ok = any(isinstance(c, ast.Call) and unparse(c.func) == 'self._subcontainers.append'
+                 for c in ast.walk(f))
+        rep.instance('ST-sub-registered', {'class': ci.name, 'registers': ok})
+        if not ok:
+            rep.violation('ST-sub-registered', m, ci.name + '.subcontainer', 'not-registered',
+                          '%s.subcontainer creates a storage object but does not append it to '
+                          'self._subcontainers: it is not closed with its parent' % ci.name,
+                          f.lineno)
+    h = ct.get('Hdf5Storage').methods['save']
+    cfg = CFG(h)
+    for st in stmts_of(h):
+        if isinstance(st, ast.Expr) and isinstance(st.value, ast.Call) and \
+                unparse(st.value.func) == 'save_to_hdf5':
+            n += 1
+
+            def removes(nd):
+                s = nd.stmt
+                if s is None:
+                    return False
+                # the guarded removal `if key in self.h5gr: del self.h5gr[key]` as a whole
+                txt = unparse(s)
+                return isinstance(s, ast.If) and 'in self.h5gr' in unparse(s.test) and (
+                    'del self.h5gr[' in txt or 'self.delete(' in txt)
+            ok = cfg.dominators_like_before(st, removes)
+            rep.instance('ST-overwrite', {'class': 'Hdf5Storage', 'removes_existing_key': ok})
+            if not ok:
+                rep.violation('ST-overwrite', m, 'Hdf5Storage.save', 'no-overwrite',
+                              'save_to_hdf5 is called without removing an existing entry of the '
+                              'same key first: assigning a cache key a second time raises OSError '
+                              '("name already exists"); PickleStorage overwrites', st.lineno)
     return n
